@@ -210,6 +210,8 @@ def match_packages(
     valid_arches = frozenset(repo.known_arches)
     cc_arches = tuple(cc_arches)
     filter_arch = frozenset(filter_arch)
+    if unknown := frozenset(cc_arches) - valid_arches:
+        raise KeywordNoMatch(f"incorrect cc arches: {' '.join(sorted(unknown))}")
 
     keyworded_already = filtered = yielded = False
     no_potential_keywords: list[str] = []
